@@ -1,11 +1,16 @@
 package main
 
 import (
+	"go/ast"
 	"go/types"
 )
 
 // globalInits applies frame rule F3: a package-level variable that no non-test function of the module
 // writes (and whose address is never taken) still has the value of its initialiser.
+//
+// Only value-like variables are covered: the heap contents reachable from a struct / pointer / map valued
+// global can be changed through field writes that are not writes of the variable, so nothing is assumed
+// about them here (the variable's reference itself is a fixed constant in any case).
 func (fc *FnCtx) globalInits(st *State) {
 	fr := fc.eng.frame
 	if fr == nil {
@@ -25,6 +30,9 @@ func (fc *FnCtx) globalInits(st *State) {
 			if !has || fr.HasWriters(v) {
 				continue
 			}
+			if !f3Applicable(v.Type(), gi.expr) {
+				continue
+			}
 			progress = true
 			cur := fc.get(st, v, sortOf(v.Type()), v.Type())
 			savedPkg, savedSafe := fc.pkg, fc.safe
@@ -35,12 +43,9 @@ func (fc *FnCtx) globalInits(st *State) {
 				val = fc.valueFor(st, gi.expr, v.Type())
 			} else {
 				val = fc.zeroValue(v.Type())
-				if val.S == "" {
-					val = fc.zeroStruct(st, v.Type())
-				}
 			}
 			fc.pkg, fc.safe = savedPkg, savedSafe
-			if val.Sort == cur.Sort {
+			if val.S != "" && val.Sort == cur.Sort {
 				fc.assume(st, tEq(cur, val))
 			}
 			fc.assumptions["frame F3: package variables with no writer in non-test module code keep their initialiser value (checked against the writer index each run)"] = true
@@ -49,4 +54,26 @@ func (fc *FnCtx) globalInits(st *State) {
 			break
 		}
 	}
+}
+
+// f3Applicable: the initial value can be stated without asserting anything about mutable heap objects.
+func f3Applicable(t types.Type, init ast.Expr) bool {
+	switch u := t.Underlying().(type) {
+	case *types.Basic:
+		return true
+	case *types.Slice:
+		_, basic := u.Elem().Underlying().(*types.Basic)
+		return basic
+	case *types.Array:
+		_, basic := u.Elem().Underlying().(*types.Basic)
+		return basic
+	case *types.Pointer, *types.Interface, *types.Signature:
+		// only through a call whose contract speaks about the result (e.g. non-nil); never a literal object
+		if init == nil {
+			return true // nil
+		}
+		_, isCall := ast.Unparen(init).(*ast.CallExpr)
+		return isCall
+	}
+	return false
 }
